@@ -328,3 +328,5 @@ def run(ctx):
     ctx.run_rule("R5.8", "single-script execution: test cases that disagree on output_stream are rejected by compile_testcase - the stream the script captures is the stream validation reads (shared with C13 R13.11) [E-PATH]", lambda c: c13.consistency_gates(c, ["output_stream"]), floor=1)
     from . import c07
     ctx.run_rule("R5.9", "the expected exit code is the one written for the test case (0 when none): no parsed exit code line survives the end of a block / run - end_testcase clears it on every Ok path and is not skipped by a state query (shared with C06 R6.13 / C07 R7.6) [E-PATH]", c07.parser_state_rules, floor=2)
+    from . import c20
+    ctx.run_rule("R5.10", "a detached execution is not reported as succeeded or failed: validate is never called on its placeholder output (shared with C20 R20.11) [E-PATH]", c20.r20_11, floor=2)
